@@ -25,7 +25,7 @@ func init() {
 		ID:       "C05",
 		Builds:   []string{"default", "386"}, // the 386 build runs a quarter of the random classes on a 32-bit target
 		Parallel: 4,                          // cases are judged on 4 goroutines per shard: the library functions are stateless, shared state inside them shows up as wrong verdicts
-		Rule: "(hrp, data) pairs: every data length 0..55 x hrp length chosen so that the result has 86..93 characters (both sides of the limit; an empty hrp where that is what it takes) x hrp kind (lower-case letters, upper-case letters, digits only, any of 33..126 in one case, with '1' inside) x data pattern (zero, 0xff, random, single bit); random pairs with hrp length 1..83 and data length 0..51; " +
+		Rule: "(hrp, data) pairs: every data length 0..55 x hrp length chosen so that the result has 86..93 characters (both sides of the limit; an empty hrp where that is what it takes) x hrp kind (lower-case letters, upper-case letters, digits only, any of 33..126 in one case, with '1' inside) x data pattern (zero, 0xff, random, single bit); random pairs with hrp length 1..83 and data length 0..51; far too long inputs whose would-be length lies in [256, 352), [512, 608) or [65536, 65632) (a length kept in 8 or 16 bits wraps to a value around the real limit), through long data, a long human-readable part, or both; " +
 			"invalid hrps: empty, mixed case, every byte 0..32 and 127..255 at the first/middle/last position, multi-byte runes (incl. U+212A, U+0130, U+0131, U+017F), invalid UTF-8, each with short data so that only the hrp decides; over-long data 52..70 bytes. " +
 			"Every Encode call: success iff the model's domain (1 <= len(hrp), chars 33..126, one case, len(hrp)+1+ceil(8n/5)+6 <= 90), string equal to the model's, empty string on error, Decode(result) == (lower(hrp), data). " +
 			"Non-trivial: distinct pairs with len(data) mod 5 != 0, or a total length >= 88, or an invalid hrp.",
@@ -300,5 +300,31 @@ func gen(g *fw.Gen) {
 	}
 	for n := g.ShareOf(20000, 2000000); n > 0; n-- {
 		g.Emit("toolong", fw.Pack([]byte(hrpOf(r, 1+r.Intn(4), r.Intn(6))), dataOf(r, 52+r.Intn(19), 2)))
+	}
+	// far too long: would-be lengths around 256 and 65536 (a length kept in 8 or 16 bits wraps to a small value)
+	// with long data, with a long human-readable part, and with both
+	totalOf := func(hl, dl int) int { return hl + 1 + (8*dl+4)/5 + 6 }
+	for n := g.ShareOf(4000, 200000); n > 0; n-- {
+		var hl, dl int
+		base := []int{256, 512, 65536}[r.Intn(3)]
+		want := base + r.Intn(96) // the wrapped value 0..95 straddles the real limit of 90
+		switch r.Intn(3) {
+		case 0: // short hrp, long data
+			hl = 1 + r.Intn(5)
+			dl = (want - hl - 7) * 5 / 8
+		case 1: // long hrp, little data
+			dl = r.Intn(6)
+			hl = want - 7 - (8*dl+4)/5
+		default:
+			hl = 84 + r.Intn(80)
+			dl = (want - hl - 7) * 5 / 8
+		}
+		if hl < 1 || dl < 0 || totalOf(hl, dl) <= 90 {
+			continue
+		}
+		if base == 65536 && n%8 != 0 {
+			continue // the 64 KiB cases are big: an eighth of them
+		}
+		g.Emit("toolong", fw.Pack([]byte(hrpOf(r, hl, r.Intn(6))), dataOf(r, dl, r.Intn(4))))
 	}
 }
